@@ -7,6 +7,11 @@ ENGINES = [
 NOT_APPLICABLE = {}
 _NOTE = 'Trusted base: compiler + sanitizer runtimes, the engine in harness/engine.h, and the independent reference oracle named in the technique (self-tested at every start). Verdict is "held on everything explored", not absence.'
 TEXT = {
+ 'C14': dict(engine='sweep+pbt', design_ref='DESIGN.md 5/C14',
+   technique='exhaustive calendar sweep + property-based testing vs independent calendar reference (Rata-Die, __int128)',
+   level_text='Every day of a 30,000-year range is printed in seven precisions and two representation widths, compared character by character with an independent calendar and parsed back; every second of the leap/century/epoch boundary days likewise; ~3*10^5 generated extreme and random instants and durations per quick run are printed, compared, parsed back (also from UTF-16/32 text), read by an independent ISO-8601 duration reader and passed through the MsgPack timestamp, under ASan/UBSan.',
+   level_note=_NOTE + ' Two recorded findings (KF-27, KF-33) narrow the time-point domain at the extreme ends of 64-bit ranges; both are witnessed on every run.'),
+
  'C16': dict(engine='sweep+pbt', design_ref='DESIGN.md 5/C16',
    technique='exhaustive sweep + grammar-based property testing vs independent numeric reference (glibc strto*, __int128)',
    level_text='Every 8/16-bit integer and (thorough) every one of the 2^32 float bit patterns is printed, checked for bit-exact round trip through glibc and the library, for minimal digit count and length; boundary/random 32/64-bit integers and doubles likewise; ~5*10^5 literal-grammar strings per quick run are parsed into 10 integer types, float and double and compared with the reference outcome (value / invalid_argument / out_of_range) in four string widths.',
